@@ -113,6 +113,8 @@ func cadenceScenarios() []*scen {
 	return []*scen{
 		{Name: "T10s background polling with a real ticker, interval 10s, all jitter choices", Declared: []string{"a"}, Interval: 10 * time.Second, UseTime: true, Horizon: 80 * time.Second,
 			Threads: map[string][]string{"clock": {"sleep:56s"}}, Events: []string{"srv-put:a"}},
+		{Name: "T10s-slow background polling, interval 10s, every request takes 1s", Declared: []string{"a", "b"}, Interval: 10 * time.Second, Latency: time.Second, UseTime: true, Horizon: 80 * time.Second,
+			Threads: map[string][]string{"clock": {"sleep:56s"}}, Events: []string{"srv-put:a"}},
 		{Name: "T1h background polling with a real ticker, interval 1h, all jitter choices", Declared: []string{"a", "b"}, Interval: time.Hour, UseTime: true, Horizon: 8 * time.Hour,
 			Threads: map[string][]string{"clock": {"sleep:5h36m"}}, Events: []string{"srv-put:b"}},
 	}
